@@ -31,6 +31,7 @@ type Prog struct {
 	idOfFn      map[*ssa.Function]string
 	allFns      map[*ssa.Function]bool
 	loadSecs    float64
+	reachCache  map[*ssa.Function]map[*ssa.Function]bool
 }
 
 func loadProg(repo, verif string, patterns []string) (*Prog, error) {
